@@ -1,0 +1,16 @@
+//go:build verif
+// +build verif
+
+package restful
+
+// Verification hook (build tag "verif" only): the entity accessor registry has no way to
+// unregister ; checks that quantify over the set of registered writers swap the whole map.
+
+// VerifReplaceEntityAccessors installs the given registry content and returns the previous one.
+func VerifReplaceEntityAccessors(accessors map[string]EntityReaderWriter) map[string]EntityReaderWriter {
+	entityAccessRegistry.protection.Lock()
+	defer entityAccessRegistry.protection.Unlock()
+	old := entityAccessRegistry.accessors
+	entityAccessRegistry.accessors = accessors
+	return old
+}
